@@ -126,6 +126,45 @@ func rewrite(path, rel string) (int, error) {
 		}
 		return out
 	}
+	// x.TryLock() / x.TryRLock() become (verifhook.Fault("trylock", site) == nil && x.TryLock()):
+	// the simulator cannot make a lock contended (it never parks a task that holds
+	// one), so a scenario may let such an attempt fail as if another goroutine held
+	// the lock at that instant
+	var tryExpr func(e ast.Expr) ast.Expr
+	tryExpr = func(e ast.Expr) ast.Expr {
+		switch x := e.(type) {
+		case *ast.CallExpr:
+			if sel, ok := x.Fun.(*ast.SelectorExpr); ok && len(x.Args) == 0 && (sel.Sel.Name == "TryLock" || sel.Sel.Name == "TryRLock") {
+				count++
+				site := fmt.Sprintf("%s:%d", rel, fset.Position(x.Pos()).Line)
+				return &ast.ParenExpr{X: &ast.BinaryExpr{Op: token.LAND,
+					X: &ast.BinaryExpr{Op: token.EQL, X: hookCall("Fault", "trylock", site), Y: ast.NewIdent("nil")},
+					Y: x}}
+			}
+		case *ast.UnaryExpr:
+			x.X = tryExpr(x.X)
+		case *ast.BinaryExpr:
+			x.X, x.Y = tryExpr(x.X), tryExpr(x.Y)
+		case *ast.ParenExpr:
+			x.X = tryExpr(x.X)
+		}
+		return e
+	}
+	ast.Inspect(f, func(n ast.Node) bool {
+		switch b := n.(type) {
+		case *ast.IfStmt:
+			b.Cond = tryExpr(b.Cond)
+		case *ast.AssignStmt:
+			for i := range b.Rhs {
+				b.Rhs[i] = tryExpr(b.Rhs[i])
+			}
+		case *ast.ReturnStmt:
+			for i := range b.Results {
+				b.Results[i] = tryExpr(b.Results[i])
+			}
+		}
+		return true
+	})
 	ast.Inspect(f, func(n ast.Node) bool {
 		switch b := n.(type) {
 		case *ast.BlockStmt:
